@@ -31,7 +31,7 @@ ASSUMPTIONS = [
     "widths <= min(3, N) as in the property",
 ]
 
-RULES = (("fill", 7.0), ("extend", 0.0), ("periodic", 0.0))
+RULES = (("fill", 7.0), ("extend", 0.0), ("periodic", 0.0), ("fill", 0.0))
 LAYOUTS = (
     ("face", "Y", "X"), ("t", "face", "Y", "X"), ("face", "t", "Y", "X"), ("Y", "face", "X"), ("Y", "X", "face"),
 )
@@ -53,7 +53,7 @@ def reorder(table, order):
     return out
 
 
-def make_grid(K, N, table, rule="fill", fv=0.0, order=0):
+def make_grid(K, N, table, rule="extend", fv=4.0, order=0):
     from xgcm import Grid
 
     table = reorder(table, order)
@@ -375,7 +375,7 @@ def run_shard(shard, tier, seed, rec):
                                 continue
                             if tier == "quick" and (wA[0] + wB[1]) % 2:
                                 continue
-                            check_pad(rec, 2, N, table, axis, comp, wA, wB, (wA[0] + wB[0]) % 3, 0, seed, g)
+                            check_pad(rec, 2, N, table, axis, comp, wA, wB, (wA[0] + wB[0]) % len(RULES), 0, seed, g)
     elif k == "struct":
         K, table = structured_tables()[shard[1]]
         for N in (2, 3):
